@@ -627,6 +627,21 @@ def c_from_bool(eng, st, fr, f, args, site):
                 outs.append((ns, int_const(1 if truth else 0, w, False)))
             if outs:
                 return outs
+        if c[0] in ("bit", "isvar"):
+            # presence flags used arithmetically (`u8::from(x.is_some()) * N`): decided like the `if` they replace
+            c0 = eng.simplify_cond(st, args[0].cond)
+            outs = []
+            for truth in (True, False):
+                ns = st.fork()
+                try:
+                    ki = eng.assume(ns, c0, truth)
+                except Dead:
+                    continue
+                if ki is not None and ki not in ns.key and (eng._want_partition(fr, site.get("block"), "cond", ki) or (ki[0] == "variant" and eng._cond_key_adt(st, c0))):
+                    ns.key = ns.key + (ki,)
+                outs.append((ns, int_const(1 if truth else 0, w, False)))
+            if outs:
+                return outs
         return [(st, eng.bool_to_int(st, args[0], w))]
     return None
 
